@@ -124,3 +124,32 @@ def gen_distances(kind, nd):
             a['settings'] = s
             yield a
     return g
+
+
+def gen_kernel(metric, nd):
+    """small DTW problems for the four distance kernels: narrow windows, psi on all four ends, penalty, max_step"""
+    def g(rng, n):
+        for _ in range(n):
+            l1, l2 = rng.randint(1, 6), rng.randint(1, 6)
+            if rng.random() < 0.3:
+                l2 = l1
+            d = rng.randint(1, 3) if nd else 1
+            s = dict(window=0, max_dist=fx(0), max_step=fx(0), max_length_diff=0, penalty=fx(0), psi_1b=0, psi_1e=0,
+                     psi_2b=0, psi_2e=0, use_pruning=False, only_ub=False, inner_dist=metric, window_type=0)
+            if rng.random() < 0.7:
+                s['window'] = rng.randint(1, 3)
+            if rng.random() < 0.3:
+                s['penalty'] = fx(rng.choice([0.5, 1.0, 2.0]))
+            if rng.random() < 0.25:
+                s['max_step'] = fx(rng.choice([1.5, 3.0]))
+            if rng.random() < 0.2:
+                s['max_length_diff'] = rng.randint(1, 3)
+            if rng.random() < 0.6:
+                s['psi_1b'], s['psi_1e'] = rng.randint(0, l1), rng.randint(0, l1)
+                s['psi_2b'], s['psi_2e'] = rng.randint(0, l2), rng.randint(0, l2)
+            a = dict(s1={'buf': series(rng, l1 * d)}, l1=l1, s2={'buf': series(rng, l2 * d)}, l2=l2)
+            if nd:
+                a['ndim'] = d
+            a['settings'] = {'struct': s}
+            yield a
+    return g
